@@ -29,7 +29,7 @@ type c16Restart struct {
 	Initial [][]string `json:"initial"`
 	A       []string   `json:"a"`
 	B       []string   `json:"b"`
-	How     string     `json:"how"` // "restart" | "stop-start"
+	How     string     `json:"how"` // "restart" | "stop-start" | "none"
 	Choices []int      `json:"choices,omitempty"`
 }
 
@@ -98,11 +98,14 @@ func c16RestartExplorer(cs c16Restart, bound int) *sched.Explorer {
 			}
 			vrt.Go("restarter", func() {
 				var err error
-				if cs.How == "restart" {
+				switch cs.How {
+				case "restart":
 					err = s.Restart()
-				} else {
+				case "stop-start":
 					s.Stop()
 					err = s.Start()
+				case "none":
+					// no lifecycle call: client B simply arrives while A's command is held
 				}
 				if err != nil {
 					notes = append(notes, "restart: "+err.Error())
@@ -173,7 +176,7 @@ func c16RestartScenarios() []c16Restart {
 	var out []c16Restart
 	as := [][]string{{"APPEND", "k", "2"}, {"INCR", "k"}, {"GETSET", "k", "9"}, {"MSETNX", "j", "1", "k", "4"}, {"DECRBY", "k", "3"}, {"SETNX", "k", "7"}}
 	bs := [][]string{{"SET", "k", "15"}, {"INCR", "k"}, {"DEL", "k"}, {"APPEND", "k", "8"}}
-	for _, how := range []string{"restart", "stop-start"} {
+	for _, how := range []string{"restart", "stop-start", "none"} {
 		for _, initial := range [][][]string{nil, {{"SET", "k", "1"}}} {
 			for _, a := range as {
 				for _, b := range bs {
